@@ -169,6 +169,13 @@ def _index(draw, shape):
         if not any(m):
             m[0] = True
         return {"t": "barr", "v": np.asarray(m).reshape(shape).tolist()}
+    if k == "tuple" and draw(st.integers(0, 2)) == 0:  # a 1-D boolean mask INSIDE a tuple index (documented index kind)
+        n1 = shape[1]
+        m = draw(st.lists(st.booleans(), min_size=n1, max_size=n1))
+        if not any(m):
+            m[draw(st.integers(0, n1 - 1))] = True
+        lead = draw(st.sampled_from([{"t": "slice", "v": [0, n0, None]}, {"t": "int", "v": draw(st.integers(0, n0 - 1))}]))
+        return {"t": "tuple", "v": [lead, {"t": "barr", "v": m}]}
     if k == "tuple":
         first = draw(st.sampled_from(["slice", "int"]))
         f = ({"t": "slice", "v": [0, n0, None]} if first == "slice"
